@@ -66,6 +66,7 @@ meta={'property':P,'mutant':int(K),
  'confirmed':{'demo_on_clean_tree':CLEAN,'go_build_with_mutant':BUILD or 'ok','existing_suite_with_mutant':SUITE,'demo_with_mutant':MUT},
  'first': old.get('first') or {'mode':MODE,'detected_by':runs[MODE]['detected_by']},
  'remark': old.get('remark',''),
+ 'summary': old.get('summary',''), 'round': old.get('round',''),
  'check_runs':runs,
  'ran':['git worktree add /tmp/seedeval/%s-%s HEAD; demo on clean tree; git apply patch.diff'%(P,K),'go build ./... ; go test -vet=off -count=1 ./...','go test -run TestMutantDemoN (demo copied next to the code)','VERIF_REPO=<worktree> [VERIF_FULL=1] ./check '+P,'git worktree remove --force']}
 json.dump(meta,open(out,'w'),indent=1)
